@@ -8,7 +8,8 @@ from . import common as C
 
 FILES = ["root", "imp", "sub", "subimp", "nested"]
 SETTINGS = [None, "rel", "abs"]
-FLAGS = ["none", "jf", "jfwd"]
+# jfrel / jfwdrel: the same with RELATIVE paths written with `./`, `dir/./` and a `name/..` detour (cleaned lexically)
+FLAGS = ["none", "jf", "jfwd", "jfrel", "jfwdrel"]
 INVS = ["proj", "proj/x/y", "proj/mods", "elsewhere"]
 ATTRS = [None, "rel", "abs"]
 
@@ -85,6 +86,17 @@ def layout(d, c):
         texts["root"] += "\nalias al := %st\n" % prefix
         prefix, name = "", "al"
     argv = []
+    if c["flags"] in ("jfrel", "jfwdrel"):
+        cwd_ = os.path.join(d, c["inv"])
+
+        def spell(target, k):
+            rel = os.path.relpath(target, cwd_)
+            return ["./" + rel, os.path.join(os.path.dirname(rel) or ".", ".", os.path.basename(rel)), "detour/../" + rel][k % 3]
+
+        k = (len(c["inv"]) + len(c["file"]) + (3 if c["nocd"] else 0) + (1 if c["script"] else 0)) % 3
+        argv += ["--justfile", spell(os.path.join(proj, "justfile"), k)]
+        if c["flags"] == "jfwdrel":
+            argv += ["--working-directory", spell(os.path.join(d, "other"), k + 1)]
     if c["flags"] in ("jf", "jfwd"):
         argv += ["--justfile", os.path.join(proj, "justfile")]
     if c["flags"] == "jfwd":
@@ -99,7 +111,7 @@ def comps(p):
 
 def model_ctx(d, c):
     proj = os.path.join(d, "proj")
-    workdir = os.path.join(d, "other") if c["flags"] == "jfwd" else proj
+    workdir = os.path.join(d, "other") if c["flags"] in ("jfwd", "jfwdrel") else proj
     chain = {"root": [], "imp": [{"import": {"fileDir": comps(proj + "/imp")}}],
              "sub": [{"module": {"fileDir": comps(proj + "/mods")}}],
              "subimp": [{"module": {"fileDir": comps(proj + "/mods")}}, {"import": {"fileDir": comps(proj + "/mods/inner")}}],
@@ -126,7 +138,7 @@ def spec(d, c):
     proj = os.path.join(d, "proj")
     inv = os.path.join(d, c["inv"])
     moddir = {"root": None, "imp": None, "sub": proj + "/mods", "subimp": proj + "/mods", "nested": proj + "/imp"}[c["file"]]
-    base = moddir if moddir else (os.path.join(d, "other") if c["flags"] == "jfwd" else proj)
+    base = moddir if moddir else (os.path.join(d, "other") if c["flags"] in ("jfwd", "jfwdrel") else proj)
     setting = {"root": c["set_root"], "imp": c["set_root"], "sub": c["set_sub"], "subimp": c["set_sub"], "nested": None}[c["file"]]
     if setting == "rel":
         base = base + "/wd"
@@ -142,7 +154,7 @@ def spec(d, c):
     else:
         cwd = base
     srcdir = {"root": proj, "imp": proj + "/imp", "sub": proj + "/mods", "subimp": proj + "/mods/inner", "nested": proj + "/imp"}[c["file"]]
-    rootbase = os.path.join(d, "other") if c["flags"] == "jfwd" else proj
+    rootbase = os.path.join(d, "other") if c["flags"] in ("jfwd", "jfwdrel") else proj
     if c["set_root"] == "rel":
         rootbase += "/wd"
     elif c["set_root"] == "abs":
@@ -170,6 +182,7 @@ def run_cfg(c):
                 obs["recipe"] = cwd
                 parts = text[4:].split("|")
                 if len(parts) >= 3:
+                    obs["justfile_directory_raw"] = parts[1]
                     obs["invocation_directory"], obs["justfile_directory"], obs["source_directory"] = [os.path.realpath(x) for x in parts[:3]]
             elif text.startswith("[Bint]"):
                 obs["backtick"] = cwd
@@ -177,7 +190,8 @@ def run_cfg(c):
                 obs["rootBacktick"] = cwd
         ctx, attrs, root_ctx = model_ctx(d, c)
         return {"rc": p.returncode, "obs": obs, "spec": spec(d, c), "d": d, "stderr": p.stderr.decode("utf-8", "replace")[-400:],
-                "req": {"op": "workdir", "ctx": ctx, "attrs": attrs, "rootCtx": root_ctx}, "argv": lay["argv"], "texts": lay["texts"]}
+                "req": {"op": "workdir", "ctx": ctx, "attrs": attrs, "rootCtx": root_ctx}, "argv": lay["argv"], "texts": lay["texts"],
+                "cwd": lay["cwd"]}
 
 
 def run(report):
@@ -188,13 +202,24 @@ def run(report):
     cfgs, total = space(tier, report.seed)
     results = C.pmap(run_cfg, cfgs)
     model = drv.pbatch([r["req"] for r in results], chunk=2000)
+    # relative --justfile paths: what Search::clean makes of them (Just.Path.searchClean), as text
+    rel_idx = [i for i, c in enumerate(cfgs) if c["flags"] in ("jfrel", "jfwdrel")]
+    rel_model = drv.pbatch([{"op": "clean", "p": results[i]["cwd"] + "|" + results[i]["argv"][results[i]["argv"].index("--justfile") + 1]} for i in rel_idx], chunk=2000)
+    rel_by_index = dict(zip(rel_idx, rel_model))
     stats = {"configurations": len(cfgs), "space": total, "by_file": {}, "no_cd": 0, "scripts": 0, "script_attribute": 0, "with_flags": 0}
     distinct = set()
     samples = []
     keys = ["recipe", "backtick", "rootBacktick", "invocation_directory", "justfile_directory", "source_directory"]
-    for c, r, m in zip(cfgs, results, model):
+    for ci, (c, r, m) in enumerate(zip(cfgs, results, model)):
         if "fatal" in m:
             raise C.BuildError("model driver: " + m["fatal"])
+        if ci in rel_by_index and r["rc"] == 0 and r["obs"].get("justfile_directory_raw") is not None:
+            mj = rel_by_index[ci]["searchClean"]
+            stats["relative_justfile_paths"] = stats.get("relative_justfile_paths", 0) + 1
+            if os.path.dirname(mj) != r["obs"]["justfile_directory_raw"]:
+                report.failure("c09-model-search-clean", "justfile_directory() prints %r, Just.Path.searchClean gives %r" % (r["obs"]["justfile_directory_raw"], os.path.dirname(mj)),
+                               {"correspondence": "C09 --justfile path vs Just.Path.searchClean", "cwd": r["cwd"], "argv": r["argv"], "model": mj,
+                                "impl": r["obs"]["justfile_directory_raw"]}, no_input=True)
         stats["by_file"][c["file"]] = stats["by_file"].get(c["file"], 0) + 1
         stats["no_cd"] += c["nocd"]
         stats["scripts"] += bool(c["script"])
@@ -224,7 +249,7 @@ def run(report):
     report.coverage.update({
         "evaluations": len(cfgs),
         "distinct_nontrivial": len(distinct),
-        "rule": "product of {file containing the recipe: root, import of root, submodule, import of the submodule, module declared in an imported file} x `set working-directory` in root and submodule {none, relative, absolute} x {no flags, --justfile, --justfile + --working-directory} x invocation directory {justfile dir, nested subdir, module dir, unrelated dir} x attribute {none, relative, absolute} x [no-cd] x {linewise, shebang, [script]} x {direct, via dependency}; %s; distinct = distinct (configuration, observed directories)" % ("complete" if tier == "thorough" else "random sample of the space (size in stats)"),
+        "rule": "product of {file containing the recipe: root, import of root, submodule, import of the submodule, module declared in an imported file} x `set working-directory` in root and submodule {none, relative, absolute} x {no flags, --justfile, --justfile + --working-directory, the same two with relative paths in three spellings} x invocation directory {justfile dir, nested subdir, module dir, unrelated dir} x attribute {none, relative, absolute} x [no-cd] x {linewise, shebang, [script]} x {direct, via dependency}; %s; distinct = distinct (configuration, observed directories)" % ("complete" if tier == "thorough" else "random sample of the space (size in stats)"),
         "samples": samples,
         "exhaustive": tier == "thorough",
         "traces_validated_against_impl": len(cfgs),
